@@ -128,6 +128,9 @@ def main():
                         src = refs[st["src"]]
                         o = pickle.loads(pickle.dumps(src))
                         ob["stable"] = str(o) == str(src) and hash(o) == hash(src) and tokenize(o) == tokenize(src)
+                        # what travelled in the pickle is the source's string form: an authority code, or WKT / PROJJSON text
+                        import re
+                        ob["payload"] = "code" if re.match(r"^[A-Za-z_0-9]+:[0-9]+$", str(src)) else "text"
                     ob["form"] = form(str(o))
                     refs[r], cls_of[r] = o, st["cls"]
                     ob["eq_ok"] = all(((o == refs[x]) is (cls_of[x] == st["cls"])) and ((refs[x] == o) is (cls_of[x] == st["cls"]))
